@@ -146,7 +146,7 @@ func (f *Filler) FillPayloadObject(p any) {
 			if rapid.IntRange(0, 9).Draw(ff.T, "ptundef") == 0 {
 				v.SetUint(uint64(rapid.Uint16().Draw(ff.T, "ptraw")))
 			} else {
-				v.SetUint(uint64(rapid.SampledFrom(ProposalTypes).Draw(ff.T, "pt")))
+				v.SetUint(uint64(ProposalTypes[UniformIndex(ff.T, len(ProposalTypes), "pt")]))
 			}
 			return true
 		case "VoteOutput.Version":
